@@ -282,7 +282,6 @@ func (g *gen) genSpec(k int) *ModSpec {
 		badIdx = g.n(0, nImp-1, "bad-import-index")
 	}
 	hasMemImport := false
-	var mutImported []*mGlobal
 	for i := 0; i < nImp; i++ {
 		var kinds []byte
 		for _, kk := range []byte{kGlobal, kGlobal, kGlobal, kTable, kTable, kMem, kMem, kFunc, kFunc} {
@@ -296,19 +295,6 @@ func (g *gen) genSpec(k int) *ModSpec {
 		kk := pick(g, kinds, "import-kind")
 		c := pick(g, by[kk], "import-target")
 		im := g.importOf(c, i == badIdx)
-		if c.ex.kind == kGlobal && c.ex.g.mut {
-			// excluded class (C04-compiler-aliased-imported-globals): one mutable global object is
-			// never imported under two indices of the same module
-			dup := false
-			for _, o := range mutImported {
-				dup = dup || o == c.ex.g
-			}
-			if dup {
-				evid.Label("excluded:mutable-global-imported-twice", 1)
-				continue
-			}
-			mutImported = append(mutImported, c.ex.g)
-		}
 		if im.Kind == kMem {
 			if hasMemImport {
 				continue
@@ -585,16 +571,6 @@ func (g *gen) genSpec(k int) *ModSpec {
 				s.Elems = append(s.Elems[:o[0]:o[0]], s.Elems[o[0]+1:]...)
 			}
 			evid.Label("excluded:null-element-item-over-non-null-slot", 1)
-			continue
-		case tmpExcludeSharedElemBeforeFailingData && g.m.postLinkStage(p) == "data" && p.elemShared:
-			var keep []ElemSpec
-			for _, e := range s.Elems {
-				if e.Table >= v.nIT {
-					keep = append(keep, e)
-				}
-			}
-			s.Elems = keep
-			evid.Label("excluded:shared-element-segment-before-failing-data", 1)
 			continue
 		}
 		break
